@@ -392,7 +392,7 @@ TRUSTED = vlib.TRUSTED_COMMON + [
 def main(tier, seed):
     r = Runner18("C18", tier, seed)
     r.build()
-    can_run = r.impl_exe and r.model_exe and not any(k in ("corr-build", "model-build") for k, _, _ in r.build_problems)
+    can_run = r.can_run()
     if can_run:
         r.replay_findings({l.name: l for l in LEGS})
         for leg in LEGS:
